@@ -21,7 +21,7 @@ from demeter.uniswap.helper import _add_statistic_column  # noqa: E402
 
 ALL = (2, (), (1,))
 ALL_LIQ = (-1,)
-REL = Fraction(1, 10 ** 15)
+REL = Fraction(1, 10 ** 9)    # to_wei floors offered amounts to 6-decimals wei: a 1e-30 difference can move a floor by 1 wei (5e-11 relative)
 ABS = Fraction(1, 10 ** 24)
 
 
@@ -67,7 +67,7 @@ def project(market, pool: Pool, broker):
     return {"w": (frac(broker.get_token_balance(pool.t0)), frac(broker.get_token_balance(pool.t1))), "pos": pos}
 
 
-def run_behaviour(pool: Pool, scn, events, row0, float_ticks=False):
+def run_behaviour(pool: Pool, scn, events, row0, float_ticks=False, est_ranges=None):
     """Execute through the real Actuator.  Returns list of records, one per event:
     dict(out, exc, ret, proj, nv) for operations; dict(proj, nv) for endbar; plus a possible run-level error."""
     bars = [[]]
@@ -114,6 +114,26 @@ def run_behaviour(pool: Pool, scn, events, row0, float_ticks=False):
             return {"fee": fee, "quote": quote, "base": base}
         raise ValueError(op)
 
+    def views():
+        b = market.get_market_balance()
+        v = {"net": frac(Decimal(b.net_value)), "base_unc": frac(Decimal(b.base_uncollected)), "quote_unc": frac(Decimal(b.quote_uncollected)),
+             "base_in": frac(Decimal(b.base_in_position)), "quote_in": frac(Decimal(b.quote_in_position)), "pos": {}}
+        for k in market.positions:
+            ps = market.get_position_status(k)
+            v["pos"][(int(k.lower_tick), int(k.upper_tick))] = {
+                "a0": frac(Decimal(ps.liquidity_amount0)), "a1": frac(Decimal(ps.liquidity_amount1)), "lv": frac(Decimal(ps.liquidity_value)),
+                "pv": frac(Decimal(ps.pending_value)), "v": frac(Decimal(ps.value))}
+        est = {}
+        for r in est_ranges or ():
+            for val in (Decimal(500), Decimal(3000)):
+                try:
+                    liq, a0, a1 = market.estimate_liquidity(val, PositionInfo(r[0], r[1]))
+                    est[(r, str(val))] = ("ok", int(liq), frac(Decimal(a0)), frac(Decimal(a1)))
+                except Exception as e:
+                    est[(r, str(val))] = ("raise", f"{type(e).__name__}: {e}")
+        v["est"] = est
+        return v
+
     class S(Strategy):
         def on_bar(self_, snapshot):
             for ev in bars[snapshot.row_id]:
@@ -124,11 +144,10 @@ def run_behaviour(pool: Pool, scn, events, row0, float_ticks=False):
                 except Exception as e:
                     ret, out, exc = None, "reject", f"{type(e).__name__}: {e}"
                 recs.append({"out": out, "exc": exc, "ret": ret, "proj": project(market, pool, act.broker),
-                             "nv": frac(Decimal(market.get_market_balance().net_value)), "nacts": len(act.actions) - n0})
+                             "view": views(), "nacts": len(act.actions) - n0})
 
         def after_bar(self_, snapshot):
-            recs.append({"endbar": True, "proj": project(market, pool, act.broker),
-                         "nv": frac(Decimal(market.get_market_balance().net_value)), "last_tick": market.last_tick})
+            recs.append({"endbar": True, "proj": project(market, pool, act.broker), "view": views(), "last_tick": market.last_tick})
 
     act.strategy = S()
     err = None
@@ -165,7 +184,7 @@ def cmp_state(proj, st, tally, fee_owner=False, prev_proj=None, prev_st=None):
         liq, p0, p1 = proj["pos"][r]
         sl = nat(v["liq"])
         tally("uni/liquidity")
-        if abs(liq - sl) > max(4, sl // 10 ** 18):
+        if abs(liq - sl) > max(4, sl // 10 ** 9):
             out.append(MM("C07", "liquidity", f"position {r} liquidity code {liq} spec {sl}"))
         for name, cv, sv in (("pending0", p0, Q(v["p0"])), ("pending1", p1, Q(v["p1"]))):
             if fee_owner:
@@ -181,11 +200,29 @@ def cmp_state(proj, st, tally, fee_owner=False, prev_proj=None, prev_st=None):
     return out
 
 
+def cmp_view(pool, view, sv, tally):
+    """reported values (get_market_balance / get_position_status) vs the spec's View - property C01's Uniswap leg."""
+    out = []
+    for k in ("net", "base_unc", "quote_unc"):
+        tally("C01/uni_" + k)
+        if not close(view[k], Q(sv[k]), REL, ABS):
+            out.append(MM("C01", "uni_" + k, f"get_market_balance {k}: code {float(view[k])!r} spec {float(Q(sv[k]))!r}"))
+    spos = {tuple(k): v for k, v in sv["pos"].items()} if isinstance(sv["pos"], dict) else {}
+    for r, pv in view["pos"].items():
+        if r not in spos:
+            continue
+        for f in ("a0", "a1", "lv", "pv", "v"):
+            tally("C01/uni_position_status")
+            if not close(pv[f], Q(spos[r][f]), REL, ABS):
+                out.append(MM("C01", "uni_position_" + f, f"get_position_status{r}.{f}: code {float(pv[f])!r} spec {float(Q(spos[r][f]))!r}"))
+    return out
+
+
 RET_KEYS = {"add": ("base", "quote", "liq"), "remove": ("base", "quote"), "collect": ("base", "quote"),
             "buy": ("fee", "quote", "base"), "sell": ("fee", "quote", "base")}
 
 
-def compare_run(pool: Pool, recs, err, steps, tally, init_proj=None, init_st=None):
+def compare_run(pool: Pool, recs, err, steps, tally, init_proj=None, init_st=None, views=None):
     """steps: spec records (ev, out, ret, st) in order (scenario events included).  Returns (mismatches, index)."""
     if err and len(recs) < len(steps):
         # the run aborted: attribute to the phase that raised
@@ -213,7 +250,7 @@ def compare_run(pool: Pool, recs, err, steps, tally, init_proj=None, init_st=Non
                         tally("uni/return_value")
                         cv = rec["ret"][k]
                         if k == "liq":
-                            if abs(int(cv) - nat(ret[k])) > max(4, nat(ret[k]) // 10 ** 18):
+                            if abs(int(cv) - nat(ret[k])) > max(4, nat(ret[k]) // 10 ** 9):
                                 mm.append(MM("C07", "ret_liq", f"{ev['op']} returned liquidity {cv}, spec {nat(ret[k])}"))
                         elif not close(frac(Decimal(cv)), Q(ret[k]), REL, ABS):
                             mm.append(MM("C03", "ret_" + k, f"{ev['op']} returned {k} {cv}, spec {float(Q(ret[k]))!r}"))
@@ -222,6 +259,8 @@ def compare_run(pool: Pool, recs, err, steps, tally, init_proj=None, init_st=Non
                     if prev_proj is not None and rec["proj"] != prev_proj:
                         mm.append(MM("C04", "reject_intact", f"{ev['op']} raised ({rec['exc']}) but wallet/positions changed"))
                 mm += cmp_state(rec["proj"], st, tally)
+        if not mm and views is not None:
+            mm += cmp_view(pool, rec["view"], views[i], tally)
         if mm:
             return mm, i
         prev_proj, prev_st = rec["proj"], {"pos": {tuple(k): v for k, v in st["pos"].items()}}
